@@ -307,6 +307,16 @@ class _Rewriter(ast.NodeTransformer):
                        args=[ast.Constant(kind), g.iter, lam(elt), conds], keywords=[])
         return ast.copy_location(new, node)
 
+    def visit_Compare(self, node):
+        # `a in b` / `a not in b` coerce the answer to a python bool; route them through __vc.contains so that a model
+        # container can answer symbolically (for ordinary containers this is operator.contains)
+        self.generic_visit(node)
+        if len(node.ops) == 1 and isinstance(node.ops[0], (ast.In, ast.NotIn)):
+            call = ast.Call(func=ast.Attribute(value=ast.Name(id="__vc", ctx=ast.Load()), attr="contains", ctx=ast.Load()),
+                            args=[node.comparators[0], node.left, ast.Constant(isinstance(node.ops[0], ast.NotIn))], keywords=[])
+            return ast.copy_location(call, node)
+        return node
+
     def visit_ListComp(self, node): return self._comp(node, "list")
     def visit_GeneratorExp(self, node): return self._comp(node, "gen")
     def visit_DictComp(self, node): return self._comp(node, "dict")
